@@ -223,6 +223,8 @@ func (c *Conn) ReadFrame() ([]byte, error) {
 	defer c.rmu.Unlock()
 	if c.Timeout > 0 {
 		_ = c.C.SetReadDeadline(time.Now().Add(c.Timeout))
+	} else {
+		_ = c.C.SetReadDeadline(time.Time{}) // no timeout: clear a deadline armed by an earlier read
 	}
 	n, _, err := ReadVarInt(rawByteReader{c})
 	if err != nil {
